@@ -367,6 +367,36 @@ func (c *Ctx) cod9(which map[string]bool) {
 			c.S.Bad("COD-10", key, "", "fileSystem", fmt.Sprintf("file name formats %q / %q: want 5 hex digits, and a spool name that List cannot take for a key", ff, sf), nil)
 		}
 		if list != nil {
+			// a name becomes a key only behind both filters: five characters, and ParseUint without error
+			ap := c.acc("COD-10", list, "name-listed-only-behind-len=5-and-ParseUint=nil")
+			for _, p := range c.Paths("COD-10", list) {
+				for i := range p.Events {
+					e := &p.Events[i]
+					if !isAppendTo(e, "[]uint") {
+						continue
+					}
+					five, parsed := false, false
+					for _, cm := range assumed(p, 0, i) {
+						if arg, isLen := builtinCall(cm.X, "len"); isLen && arg.Type().String() == "string" && cm.Op == token.EQL && isK(cm.Y, 5) {
+							five = true
+						}
+					}
+					for j := 0; j < i; j++ {
+						x := &p.Events[j]
+						if x.Kind == pathx.KCall && (stdName(x.Callee) == "strconv.ParseUint" || stdName(x.Callee) == "strconv.ParseInt") {
+							if n, k := nilResult(p, j, i); n && k {
+								parsed = true
+							}
+						}
+					}
+					if five && parsed {
+						ap.pass()
+					} else {
+						ap.fail(p, i, "a directory entry is reported as a key on a path without (five characters: %v, parsed without error: %v): spool files and foreign names are listed, and Load cannot return them", five, parsed)
+					}
+				}
+			}
+			ap.done(1, "every append lies behind both filters")
 			lenOK, baseOK, bitsOK := false, false, false
 			for _, b := range list.Blocks {
 				for _, ins := range b.Instrs {
